@@ -20,11 +20,15 @@ package main
 
 import (
 	"context"
+	"encoding/json"
 	"errors"
 	"fmt"
 	"io"
 	"math/rand"
+	"os"
+	"path/filepath"
 	"runtime"
+	"sort"
 	"strconv"
 	"strings"
 	"sync"
@@ -766,8 +770,8 @@ type c16Result struct {
 }
 
 // c16RunBC executes the steps of prefix that are valid when their turn comes (the others are
-// skipped), then drains.
-func c16RunBC(prefix []int, endKind, refuseCode, drainOrder int) (res c16Result, executed int) {
+// skipped), then up to extra further steps chosen by choose among the valid ones, then drains.
+func c16RunBC(prefix []int, endKind, refuseCode, drainOrder int, extra int, choose func(valid []int) int) (res c16Result) {
 	s := newC16Scn(endKind, refuseCode)
 	defer s.cleanup()
 	s.sample()
@@ -780,15 +784,30 @@ func c16RunBC(prefix []int, endKind, refuseCode, drainOrder int) (res c16Result,
 			ok = false
 			break
 		}
-		executed++
+		s.sample()
+	}
+	validNow := func() []int {
+		var v []int
+		for m := 0; m < mCount; m++ {
+			if s.valid(m) {
+				v = append(v, m)
+			}
+		}
+		return v
+	}
+	for i := 0; ok && i < extra; i++ {
+		v := validNow()
+		if len(v) == 0 {
+			break
+		}
+		if !s.do(choose(v)) {
+			ok = false
+			break
+		}
 		s.sample()
 	}
 	if ok {
-		for m := 0; m < mCount; m++ {
-			if s.valid(m) {
-				res.next = append(res.next, m)
-			}
-		}
+		res.next = validNow()
 		if s.drain(c16DrainOrders[drainOrder%len(c16DrainOrders)]) {
 			s.tl.tev(0, "TEnd")
 			s.sample()
@@ -1186,9 +1205,11 @@ func runC16(cfg *runCfg) error {
 		{mStartConnect, mRelCWok, mPeerAccept, mRelCA, mPeerEnd, mRelSC, mRelSU, mStartDisconnect},
 		{mStartDisconnect, mRelDU, mRelDWok, mRelDC, mStartConnect, mRelCWok},
 	}
+	fileBC, fileRC := c16LoadCorpus()
+	corpus = append(corpus, fileBC...)
 	for i, p := range corpus {
 		for ek := 0; ek < 5; ek++ {
-			res, _ := c16RunBC(p, ek, 1+(i+ek)%5, i)
+			res := c16RunBC(p, ek, 1+(i+ek)%5, i, 0, nil)
 			addBC(res, "bc", false)
 		}
 	}
@@ -1209,7 +1230,7 @@ func runC16(cfg *runCfg) error {
 		if len(bc) >= budget || stuckN > 6 {
 			return
 		}
-		res, _ := c16RunBC(prefix, 0, 5, len(prefix))
+		res := c16RunBC(prefix, 0, 5, len(prefix), 0, nil)
 		if len(prefix) > 0 {
 			addBC(res, "bc", false)
 		}
@@ -1224,13 +1245,8 @@ func runC16(cfg *runCfg) error {
 	nEnum := len(bc)
 	// random continuation: longer scenarios, all malformed kinds and refusal codes, random drain order
 	for i := 0; i < nRand && stuckN <= 6; i++ {
-		// propose steps at random; the runner skips those that are not valid when their turn comes
-		n := 12 + rnd.Intn(28)
-		var p []int
-		for j := 0; j < n; j++ {
-			p = append(p, rnd.Intn(mCount))
-		}
-		res, _ := c16RunBC(p, rnd.Intn(5), 1+rnd.Intn(5), rnd.Intn(3))
+		// a random walk over the steps that are valid when their turn comes
+		res := c16RunBC(nil, rnd.Intn(5), 1+rnd.Intn(5), rnd.Intn(3), 6+rnd.Intn(10), func(v []int) int { return v[rnd.Intn(len(v))] })
 		addBC(res, "bc", false)
 	}
 	// family rc
@@ -1259,6 +1275,18 @@ func runC16(cfg *runCfg) error {
 		nontrivial++
 		if len(m.Samples) < 5 && (kind == "stale_ka" || kind == "ka_timeout") {
 			m.Samples = append(m.Samples, desc)
+		}
+	}
+	for _, e := range fileRC {
+		oldP := 0
+		if e.GoMaxProcs > 0 {
+			oldP = runtime.GOMAXPROCS(e.GoMaxProcs)
+		}
+		for i := 0; i < e.Repeat && rcStuck < 3; i++ {
+			addRC(e.Kind, e.Code)
+		}
+		if e.GoMaxProcs > 0 {
+			runtime.GOMAXPROCS(oldP)
 		}
 	}
 	for rep := 0; rep < rcReps && rcStuck < 3; rep++ {
@@ -1304,3 +1332,65 @@ func runC16(cfg *runCfg) error {
 	return m.write(cfg.outDir)
 }
 
+
+// ---------------------------------------------------------------- committed corpus (corpus/C16/*.json)
+
+type c16CorpusRC struct {
+	Kind       string `json:"kind"`
+	Code       int    `json:"code"`
+	GoMaxProcs int    `json:"gomaxprocs"`
+	Repeat     int    `json:"repeat"`
+}
+
+type c16CorpusFile struct {
+	BC []struct {
+		Name   string   `json:"name"`
+		Macros []string `json:"macros"`
+	} `json:"bc"`
+	RC []c16CorpusRC `json:"rc"`
+}
+
+func c16LoadCorpus() (bc [][]int, rc []c16CorpusRC) {
+	root := os.Getenv("VERIF_ROOT")
+	if root == "" {
+		return nil, nil
+	}
+	files, _ := filepath.Glob(filepath.Join(root, "corpus", "C16", "*.json"))
+	sort.Strings(files)
+	kinds := map[string]bool{"ka_timeout": true, "stale_ka": true, "refused": true, "graceful_late": true, "ka_graceful_inflight": true}
+	for _, f := range files {
+		b, err := os.ReadFile(f)
+		if err != nil {
+			continue
+		}
+		var cf c16CorpusFile
+		if json.Unmarshal(b, &cf) != nil {
+			continue
+		}
+		for _, e := range cf.BC {
+			var p []int
+			for _, name := range e.Macros {
+				for i, n := range c16MacroName {
+					if n == name {
+						p = append(p, i)
+					}
+				}
+			}
+			if len(p) > 0 {
+				bc = append(bc, p)
+			}
+		}
+		for _, e := range cf.RC {
+			if kinds[e.Kind] {
+				if e.Repeat <= 0 {
+					e.Repeat = 1
+				}
+				if e.Kind == "refused" && (e.Code < 1 || e.Code > 5) {
+					e.Code = 5
+				}
+				rc = append(rc, e)
+			}
+		}
+	}
+	return
+}
